@@ -8,23 +8,36 @@ import math
 import random
 
 DURS = [0.1, 0.2, 0.3, 0.4, 0.6, 0.7, 0.9, 1, 1.1, 1.5, 2, 2.5, 3, 0.001]
-STARTS = [0, 0, 0.3, -10, 5, 100.1]
+STARTS = [0, 0, 0.3, -10, 5, 100.1, 0.2]
+# clocks so large that small delays are absorbed by float rounding (now + d == now), and the end of time
+HUGE_STARTS = [2.0 ** 53, 1e16, 1.7e18]
+INF = float('inf')
 
 
 def timing_program(rng, nroots=None, depth=0):
     """a program made of timed waits, delayed children and until-blocks with float dates"""
-    start = rng.choice(STARTS)
+    start = rng.choice(STARTS) if rng.random() < 0.9 else rng.choice(HUGE_STARTS)
     nroots = nroots or rng.randint(2, 8)
+    forever = rng.random() < 0.08          # some programs run on to the end of time
 
     def date():
+        if forever and rng.random() < 0.2:
+            return INF
         return round(start + rng.choice([-1, 0, 0, 1, 1, 1]) * rng.choice(DURS) * rng.randint(0, 4), 6)
+
+    def dur():
+        if forever and rng.random() < 0.15:
+            return INF
+        if start >= 2.0 ** 53 and rng.random() < 0.5:
+            return rng.choice([1, 2, 1024, 4096, 1e6])      # some absorbed by the clock, some not
+        return rng.choice(DURS)
 
     def ops(n, lvl):
         out = []
         for _ in range(n):
             r = rng.random()
             if r < 0.35:
-                out.append({'op': 'sleep', 'd': rng.choice(DURS)})
+                out.append({'op': 'sleep', 'd': dur()})
             elif r < 0.5:
                 out.append({'op': 'await_c', 'c': [rng.choice(['ge', 'ge', 'eq', 'lt']), date()]})
             elif r < 0.6:
@@ -33,7 +46,7 @@ def timing_program(rng, nroots=None, depth=0):
                 kind = rng.choice(['scope', 'until_d', 'until_c'])
                 o = {'op': 'open', 'kind': kind, 'catch': True}
                 if kind == 'until_d':
-                    o['d'] = rng.choice(DURS)
+                    o['d'] = dur()
                 if kind == 'until_c':
                     o['c'] = [rng.choice(['ge', 'eq']), date()]
                 out.append(o)
@@ -41,7 +54,7 @@ def timing_program(rng, nroots=None, depth=0):
                     child = {'op': 'do', 's': -1, 'vol': rng.random() < 0.2, 'fin': 'none',
                              'prog': ops(rng.randint(0, 3), lvl + 1)}
                     if rng.random() < 0.5:
-                        child['d'] = rng.choice(DURS)
+                        child['d'] = dur()
                     elif rng.random() < 0.5:
                         child['at_rel'] = rng.choice(DURS) * rng.randint(0, 3)   # resolved to now + x at run time
                     elif rng.random() < 0.7:
